@@ -111,7 +111,7 @@ func TestVerifC18(t *testing.T) {
 			run := 0
 			var lastRA *ndp.RouterAdvertisement
 			var lastFrom netip.Addr
-			flapAt := -1
+			flapAt, coincident := -1, false
 			if i%4 == 2 {
 				flapAt = nmsg / 2
 			}
@@ -121,11 +121,21 @@ func TestVerifC18(t *testing.T) {
 					// and goes on counting where it was (series are cumulative)
 					h.tr.Add(vfake.Event{Kind: "link_event"})
 					h.watchC <- 2 // netstate.LinkDown
-					time.Sleep(10 * time.Millisecond)
-					h.settle()
 					r.Count("sequences_with_link_flap", 1)
+					if i%8 == 6 {
+						// ... in the very instant the next message arrives: the read that is
+						// under way may still complete, and a message that was read counts,
+						// whether or not the task is being torn down around it
+						coincident = true
+						r.Count("link_flaps_coinciding_with_a_message", 1)
+					} else {
+						time.Sleep(10 * time.Millisecond)
+						h.settle()
+					}
 				}
-				time.Sleep(steps[sr.Intn(len(steps))])
+				if !coincident {
+					time.Sleep(steps[sr.Intn(len(steps))])
+				}
 				from := netip.MustParseAddr(senders[sr.Intn(len(senders))])
 				host := from.WithZone("").String()
 				var msg ndp.Message
@@ -178,8 +188,21 @@ func TestVerifC18(t *testing.T) {
 					})
 					shadow[f][k] = v
 				}
+				readsBefore := len(vOnly(h.tr.Events(), "read_deliver"))
 				h.deliver(vfake.In{Msg: msg, Hop: hop, From: from})
 				h.settle()
+				if coincident {
+					coincident = false
+					time.Sleep(10 * time.Millisecond)
+					h.settle()
+					if len(vOnly(h.tr.Events(), "read_deliver")) == readsBefore {
+						// the old connection was closed before the message was read: it
+						// never reached the monitor, nothing to account for
+						r.Count("coinciding_messages_lost_with_the_old_socket", 1)
+						continue
+					}
+					r.Count("coinciding_messages_read", 1)
+				}
 				now := time.Now()
 				onMsg := int(onMsgA.Load())
 				typ := msg.Type().String()
